@@ -284,7 +284,8 @@ pub fn run(rep: &mut Report, thorough: bool) {
         let bases: Vec<&Payload> = udp_sel.iter().filter(|p| names.contains(&p.name)).cloned().collect();
         let labels: Vec<u32> = crate::deviate::EDGE16.iter().cloned().chain([0x10000u32, 0xfffff]).collect();
         let v4flags: [u16; 4] = [0x0000, 0x4000, 0x8000, 0xc000];
-        let nf = 256 + 256 + labels.len() as u64 + v4flags.len() as u64;
+        let tags: [(u16, u16); 4] = [(0x8100, 0x0000), (0x8100, 0x0064), (0x8100, 0xe001), (0x88a8, 0x0064)];
+        let nf = 256 + 256 + labels.len() as u64 + v4flags.len() as u64 + tags.len() as u64;
         let total = bases.len() as u64 * nf;
         let f4 = flow4(40000, 80);
         let f6 = flow6(40000, 80);
@@ -302,6 +303,16 @@ pub fn run(rep: &mut Report, thorough: bool) {
                 a[22] = (k - 256) as u8;
                 b[21] = (k - 256) as u8;
                 what = format!("TTL / hop limit {}", k - 256);
+            } else if k >= 512 + labels.len() as u64 + v4flags.len() as u64 {
+                // the same link-layer tagging on both versions (802.1Q priority tag, VLAN 100, 802.1ad)
+                let (tpid, tci) = tags[(k - 512 - labels.len() as u64 - v4flags.len() as u64) as usize];
+                for fr in [&mut a, &mut b] {
+                    let rest = fr.split_off(12);
+                    fr.extend_from_slice(&tpid.to_be_bytes());
+                    fr.extend_from_slice(&tci.to_be_bytes());
+                    fr.extend(rest);
+                }
+                return (a, b, format!("link-layer tag {:#06x} / {:#06x}", tpid, tci));
             } else if k >= 512 + labels.len() as u64 {
                 // the IPv4 flag bits that do not say "fragment" (DF, the reserved bit, both): IPv6
                 // has no such field, the datagram is whole either way
@@ -352,7 +363,7 @@ pub fn run(rep: &mut Report, thorough: bool) {
             },
             &mut rep.sink,
         );
-        rep.stage("version-differential-envelope", "5 payloads x {TOS = traffic class: 256 values, TTL = hop limit: 256 values, IPv4 id / IPv6 flow label: 24 values, IPv4 DF / reserved flag bits: 4 values}, the same marking on both IP versions: same canonical answer", total, t0);
+        rep.stage("version-differential-envelope", "5 payloads x {TOS = traffic class: 256 values, TTL = hop limit: 256 values, IPv4 id / IPv6 flow label: 24 values, IPv4 DF / reserved flag bits: 4 values, 802.1Q / 802.1ad tags: 4}, the same marking on both IP versions: same canonical answer", total, t0);
     }
     // the IPv4 header's own length: the same payload behind IPv4 options (IHL 6..15: NOP padding, a
     // timestamp option, a router-alert option) as datagram and as first data segment: the answer
